@@ -170,6 +170,57 @@ func execAr(vec J, out *Writer) {
 			st["data_ok"] = ok
 		}
 		out.Put(J{"ev": "arbig", "in": vec, "steps": steps, "total": buf.Len(), "panic": p != ""})
+	case "arsparse":
+		// a member of 4 GiB and more, served by a sparse io.ReaderAt (all its bytes are 'Z'; nothing that large is allocated),
+		// followed by a 3-byte member
+		sizeText := S(vec["size"])
+		size, err := strconv.ParseInt(sizeText, 10, 64)
+		if err != nil {
+			die("arsparse: %v", err)
+		}
+		hdr := func(name, sz string) string {
+			return fmt.Sprintf("%-16s%-12s%-6s%-6s%-8s%-10s`\n", name, "1433153120", "0", "0", "100644", sz)
+		}
+		tail := ""
+		if size%2 == 1 {
+			tail = "\n"
+		}
+		tail += hdr("tail", "3") + "xyz\n"
+		ra := &sparseAt{head: []byte("!<arch>\n" + hdr("big", sizeText)), hole: size, tail: []byte(tail)}
+		rec := J{"ev": "arsparse", "in": vec, "panic": false, "end": "none", "members": []interface{}{}}
+		func() {
+			defer func() {
+				if r := recover(); r != nil {
+					rec["panic"] = true
+				}
+			}()
+			ar, err := deb.LoadAr(ra)
+			if err != nil {
+				rec["end"] = "err"
+				return
+			}
+			members := []interface{}{}
+			for i := 0; i < 5; i++ {
+				e, err := ar.Next()
+				if err == io.EOF {
+					rec["end"] = "eof"
+					break
+				}
+				if err != nil {
+					rec["end"] = "err"
+					break
+				}
+				first, last := make([]byte, 4), make([]byte, 4)
+				n1, _ := e.Data.ReadAt(first, 0)
+				n2 := 0
+				if e.Size >= 4 {
+					n2, _ = e.Data.ReadAt(last, e.Size-4)
+				}
+				members = append(members, J{"name": B(e.Name), "size": B(strconv.FormatInt(e.Size, 10)), "first": BB(first[:n1]), "last": BB(last[:n2])})
+			}
+			rec["members"] = members
+		}()
+		out.Put(rec)
 	default:
 		execDeb(vec, out)
 	}
@@ -250,4 +301,36 @@ func genC15(seed int64, tier string, out *Writer) {
 		out.Put(J{"k": "arraw", "bytes": BB(b)})
 	}
 	genDebRaw(r, tier, out)
+}
+
+// sparseAt: head bytes, then `hole` bytes that are all 'Z', then tail bytes
+type sparseAt struct {
+	head, tail []byte
+	hole       int64
+}
+
+func (s *sparseAt) ReadAt(p []byte, off int64) (int, error) {
+	total := int64(len(s.head)) + s.hole + int64(len(s.tail))
+	n := 0
+	for n < len(p) {
+		o := off + int64(n)
+		switch {
+		case o < 0 || o >= total:
+			return n, io.EOF
+		case o < int64(len(s.head)):
+			n += copy(p[n:], s.head[o:])
+		case o < int64(len(s.head))+s.hole:
+			k := int64(len(s.head)) + s.hole - o
+			if k > int64(len(p)-n) {
+				k = int64(len(p) - n)
+			}
+			for i := int64(0); i < k; i++ {
+				p[n+int(i)] = 'Z'
+			}
+			n += int(k)
+		default:
+			n += copy(p[n:], s.tail[o-int64(len(s.head))-s.hole:])
+		}
+	}
+	return n, nil
 }
